@@ -264,6 +264,7 @@ type c17Opts struct {
 	// LoadConfig (instead of a Config literal). OmitDefaults: a threshold that equals its documented default
 	// (firewall_threshold 0.25, cache_threshold 0.1) is left out of the file.
 	ViaYAML, OmitDefaults bool
+	CacheUnlimited        bool // max_cache_items = 0
 }
 
 // c17Mem describes the memory configuration of an operator-created index.
@@ -457,6 +458,9 @@ func c17NewRig(ctx *vkit.Ctx, cs *vkit.Case, o c17Opts) *c17Rig {
 	cfg.CacheThreshold = float32(o.Tc)
 	cfg.CacheTTL = o.TTL
 	cfg.MaxCacheItems = 10000
+	if o.CacheUnlimited {
+		cfg.MaxCacheItems = 0
+	}
 	cfg.CacheVacuumInterval = time.Hour
 	cfg.RAGEnabled = o.RAG
 	cfg.RAGIndex = c17RAGIndex
